@@ -1,5 +1,5 @@
 (* C12 - an undo file restores the exact previous bytes.  Statements only. *)
-From E2V Require Import IoCache.IoModel Undo.UndoModel Undo.UndoProofs.
+From E2V Require Import IoCache.IoModel Undo.UndoModel Undo.UndoProofs Undo.Session Undo.SessionProofs.
 Local Open Scope N_scope.
 
 (* For every history of block writes, byte-count writes, write_byte and
@@ -42,3 +42,17 @@ Example ex_undo :
   map (e2undo 1024 512 (urun 1024 4096 512 (uinit (fun o => o mod 251)) ops)) [0; 512; 3584; 5512; 7680; 9000]
   = map (fun o => o mod 251) [0; 512; 3584; 5512; 7680; 9000].
 Proof. vm_compute. reflexivity. Qed.
+
+(* chains of recording sessions on one undo file: whatever each session did - also nothing at all - the next one can
+   open the file, and so can e2undo at the end (the header's block size is inside the accepted range) *)
+Theorem every_session_leaves_an_openable_undo_file : forall T ss,
+  MINB <= T -> T <= MAXB ->
+  exists h, chain close_new T ss None = Some h /\ open_ok h = true.
+Proof. intros T ss Hlo Hhi. apply chain_new_ok; [assumption|assumption|reflexivity]. Qed.
+Print Assumptions every_session_leaves_an_openable_undo_file.
+
+(* the code before the repair: a first session that wrote nothing left block size 0, the second could not open it *)
+Theorem writeless_first_session_old_refuted :
+  exists T ss, MINB <= T /\ T <= MAXB /\ chain close_old T ss None = None.
+Proof. exists 1024, [false; true]. split; [unfold MINB; lia|]. split; [unfold MAXB; lia|]. exact chain_old_refuted. Qed.
+Print Assumptions writeless_first_session_old_refuted.
